@@ -66,7 +66,7 @@ def create_multisig_psbt(
             # we're only going to base path level
             path=base_path,
         )
-        hd_pubs[named_global_hd_pubkey_obj.serialize()] = named_global_hd_pubkey_obj
+        hd_pubs[named_global_hd_pubkey_obj.raw_serialize()] = named_global_hd_pubkey_obj
 
         if network is None:
             # Set the initial value
